@@ -4,6 +4,10 @@
 mod util;
 mod resolve;
 mod frontend;
+mod batch;
+mod text;
+mod config;
+mod filters;
 
 fn main() {
     let args: Vec<String> = std::env::args().skip(1).collect();
@@ -11,6 +15,10 @@ fn main() {
     let code = match args.first().map(String::as_str) {
         Some("resolve") => resolve::main(&args[1..]),
         Some("frontend") => frontend::main(&args[1..]),
+        Some("batch") => batch::main(&args[1..]),
+        Some("config") => config::main(&args[1..]),
+        Some("filters") => filters::main(&args[1..]),
+        Some("text") => text::main(&args[1..]),
         Some("version") => {
             println!("dlv 0.1");
             0
